@@ -68,7 +68,11 @@ func (p *Parser) parseInsertStatement() (ast.Statement, error) {
 		}
 		qe, ok := stmt.(ast.QueryExpression)
 		if !ok {
-			return nil, fmt.Errorf("expected SELECT or set operation in INSERT ... SELECT, got %T: %w", stmt, ErrUnexpectedStatement)
+			return nil, goerrors.InvalidSyntaxError(
+				fmt.Sprintf("expected SELECT or set operation in INSERT ... SELECT, got %T", stmt),
+				p.currentLocation(),
+				"",
+			).WithCause(ErrUnexpectedStatement)
 		}
 		query = qe
 	case p.isType(models.TokenTypeValues):
